@@ -382,19 +382,37 @@ func vC04Dns64History(out *vC04Out, r *rand.Rand, budget int, scn *vC04D64Scn) i
 			out.emit(map[string]any{"inconclusive": true})
 			continue
 		}
-		// Go-side oracle (the statement): no synthesised record outlives a cached piece it was composed from
+		// Go-side oracle (the statement): no synthesised record outlives a piece the reply was
+		// composed from — the cached AAAA answer, the cached address answer, the cached alias
+		// answer the A chase went through, and the lease of every piece fetched in this query
 		fail := ""
-		for _, e := range []*CacheEntry{preNeg, termPre} {
+		viaPre := (*CacheEntry)(nil)
+		if termName != name {
+			viaPre = preA
+		}
+		for i, e := range []*CacheEntry{preNeg, termPre, viaPre} {
 			if e == nil || !live(e) {
 				continue
 			}
-			if e == preNeg && stubbed[name+"|AAAA"] || e == termPre && stubbed[termName] {
+			if i == 0 && stubbed[name+"|AAAA"] || i == 1 && stubbed[termName] || i == 2 && stubbed[name] {
 				continue
 			}
 			left := e.remaining(k.real(t0))
 			for _, rr := range resp.Answer {
 				if rr.Header().Rrtype == dns.TypeAAAA && time.Duration(rr.Header().Ttl)*time.Second > left {
-					fail = fmt.Sprintf("synthesised AAAA TTL %d exceeds the %v left of a cached piece", rr.Header().Ttl, left)
+					fail = fmt.Sprintf("synthesised AAAA TTL %d exceeds the %v left of a cached piece (%s)", rr.Header().Ttl, left,
+						[]string{"AAAA answer", "address answer", "alias answer"}[i])
+				}
+			}
+		}
+		for _, l := range leases {
+			left := time.Duration(l - t0)
+			if left < 0 {
+				left = 0
+			}
+			for _, rr := range resp.Answer {
+				if rr.Header().Rrtype == dns.TypeAAAA && time.Duration(rr.Header().Ttl)*time.Second > left {
+					fail = fmt.Sprintf("synthesised AAAA TTL %d exceeds the %v left of the lease a fresh piece was learned under", rr.Header().Ttl, left)
 				}
 			}
 		}
